@@ -222,10 +222,16 @@ func validateAgainstNative(p *Program, u *Unit, results []*HarnessResult, tier s
 			if hs.DiffTraces > 0 && i >= hs.DiffTraces {
 				break
 			}
-			if tr.Panic != "" {
-				continue // a native panic (e.g. index out of range in the code under test) is compared as such below
-			}
 			obs, failed, end := runConcrete(p, u, hs, tier, tr.Nondet)
+			if tr.Panic != "" {
+				// the native run panicked: the engine must see a panic on the same inputs
+				if end.kind != "panic" {
+					problems = append(problems, fmt.Sprintf("%s trace %d: native run panicked, engine ended %s %s; inputs %v", r.Func, i, end.kind, end.msg, tr.Nondet))
+				} else {
+					matched++
+				}
+				continue
+			}
 			if tr.Assume {
 				if end.kind != "assume" && end.kind != "infeasible" {
 					problems = append(problems, fmt.Sprintf("%s trace %d: native hit a failed assumption, engine ended %s %s", r.Func, i, end.kind, end.msg))
